@@ -186,9 +186,22 @@ func run(id string, c cfg, tier string, seed int64, replay string) int {
 	// optional native fuzz campaigns (thorough only)
 	fuzzRes := map[string]any{}
 	var fuzzViol []hx.Violation
+	var inconclFuzz []string
 	if tier == "thorough" && replay == "" {
+		fuzzBin := filepath.Join(root(), "bin", lower+".fuzz")
+		if len(c.Fuzz) > 0 {
+			// instrumented build for coverage guidance
+			fb := exec.Command("go", "test", "-c", "-fuzz=Fuzz", "-tags", "verif", "-o", fuzzBin, "./checks/"+lower)
+			fb.Dir = root()
+			if out, err := fb.CombinedOutput(); err != nil {
+				inconclFuzz = append(inconclFuzz, fmt.Sprintf("fuzz build failed: %v %s", err, out))
+			}
+		}
 		for _, ft := range c.Fuzz {
-			res, v := runFuzz(id, bin, pkgDir, ft)
+			if len(inconclFuzz) > 0 {
+				break
+			}
+			res, v := runFuzz(id, fuzzBin, pkgDir, ft)
 			fuzzRes[ft.Name] = res
 			fuzzViol = append(fuzzViol, v...)
 		}
@@ -269,6 +282,7 @@ func run(id string, c cfg, tier string, seed int64, replay string) int {
 		}
 	}
 	viols = append(viols, fuzzViol...)
+	inconcl = append(inconcl, inconclFuzz...)
 	if c.Race {
 		// data race reports written by the race runtime: each shard's first report becomes a violation
 		files, _ := filepath.Glob(filepath.Join(partDir, "race*.*"))
@@ -502,6 +516,7 @@ func runFuzz(id, bin, pkgDir string, ft fuzzTarget) (map[string]any, []hx.Violat
 			os.MkdirAll(filepath.Dir(dst), 0o755)
 			if b, e3 := os.ReadFile(newest); e3 == nil {
 				os.WriteFile(dst, b, 0o644)
+				os.Remove(newest) // the replay copy is the record; do not leave it as a seed for later runs
 			}
 			v = append(v, hx.Violation{Sub: "fuzz/" + ft.Name, Kind: "gofuzz", Replay: dst, Msg: tail})
 		} else {
